@@ -27,7 +27,9 @@ RULE = ('C01-style World histories plus dispatch_enabled toggles, probe '
         ' (disable, attach/detach, enable; or a raising callback, the'
         ' program enabling again), a second World listening to the world,'
         ' components nobody refers to that are owed postponed callbacks, the'
-        ' pinned suite under the registration invariant.')
+        ' pinned suite under the registration invariant.'
+        ' Round 14 added: lifecycle mappings inherited through an'
+        ' undecorated class with two handler bases; classes decorated twice.')
 ANCHORS = [
     'desper/logic/world.py::World.create_entity',
     'desper/logic/world.py::World.add_component',
